@@ -5,7 +5,7 @@ from ..iomodel import layout_equiv
 from ..layout import load_table, fields_of, layout
 from ..fmap import reader_map, Sym
 from ..formula import compare
-from .. import flow
+from .. import flow, roles
 from .io_common import recseq_pair, single_string_kinds
 from .c01 import writer_field_syms, compare_maps
 from .c08 import pair_rule
@@ -102,9 +102,31 @@ def rule_recseq_term(run):
     run.shape("if line.startswith('+++'): finished = True timing = True" in txt and 'else: finished = True' in txt,
               't2incon.read :: loop exits on blank line or +++', 'exit idiom not recognised', where=rd.where())
     # both sides use the same reset rule for the header / timing
-    conds = [norm(n.test) for n in walk_no_nested(wr.node) if isinstance(n, ast.If) and 'reset' in norm(n.test)]
-    run.check(len(conds) == 2 and conds[0] == conds[1], 't2incon.write :: header form and terminator chosen by the same condition',
-              'conditions are %s: a long header can be followed by blank lines or a short one by a timing record' % conds, where=wr.where())
+    # the two decisions are found by what their branches write (header_short / header_long ; blank lines / '+++'), and
+    # a condition held in a local (`omit = self.timing is None or reset`) is resolved to its definition
+    def writes(stmts, pred):
+        return any(isinstance(c, ast.Call) and pred(c) for st in stmts for c in ast.walk(st))
+    def is_hdr(kind): return lambda c: call_name(c) == 'write_values' and len(c.args) > 1 and const_str(c.args[1]) == kind
+    def is_lit(prefix): return lambda c: call_name(c) == 'write' and c.args and (const_str(c.args[0]) or '').startswith(prefix)
+    ifs = [n for n in walk_no_nested(wr.node) if isinstance(n, ast.If)]
+    hdr = [n for n in ifs if writes(n.body, is_hdr('header_short')) and writes(n.orelse, is_hdr('header_long'))]
+    trm = [n for n in ifs if writes(n.body, is_lit('\n')) and writes(n.orelse, is_lit('+++'))]
+    k_ = 't2incon.write :: header form and terminator chosen by the same condition'
+    def resolved(t):
+        if isinstance(t, ast.Name):
+            d = [v for nm, v, st in roles.assignments(wr.node) if nm == t.id]
+            if len(d) == 1: return d[0]
+        return t
+    if len(hdr) != 1 or len(trm) != 1:
+        run.unknown(k_, 'the short/long header decision or the blank/+++ decision was not found (%d, %d)' % (len(hdr), len(trm)), where=wr.where())
+    else:
+        a_, b_ = resolved(hdr[0].test), resolved(trm[0].test)
+        r = compare(a_, norm(b_))
+        if r == 'equal': run.ok(k_, norm(a_), where=wr.where(trm[0]))
+        elif r == 'different':
+            run.violated(k_, 'the header is chosen by `%s` but the terminator by `%s`: a long header can be followed by blank lines or a short '
+                         'one by a timing record' % (norm(a_), norm(b_)), where=wr.where(trm[0]))
+        else: run.unknown(k_, 'conditions `%s` / `%s`' % (norm(a_), norm(b_)), where=wr.where(trm[0]))
 
 
 def rule_fmap(run):
@@ -141,13 +163,19 @@ def rule_fmap(run):
     if tm:
         keys = [const_str(k) for k in tm[0].value.keys]
         vals = [norm(v) for v in tm[0].value.values]
+        # the destructuring that binds those values: found by the names it binds, whatever the format argument is called
         des = [n for n in ast.walk(rd.node) if isinstance(n, ast.Assign) and isinstance(n.value, ast.Call) and call_name(n.value) == 'parse_string'
-               and norm(n.value.args[1]) == 'timing_fmt']
-        names = [norm(e) for e in des[0].targets[0].elts] if des else []
+               and isinstance(n.targets[0], (ast.List, ast.Tuple)) and set(vals) <= set(norm(e) for e in n.targets[0].elts)]
         spec = list(tab['timing'][0])
-        good = keys == spec and vals == names
-        if good: run.ok(key, keys)
-        else: run.violated(key, 'spec names %s, dictionary %s' % (spec, list(zip(keys, vals))), where=rd.where(tm[0]))
+        if len(des) != 1 or None in keys:
+            run.unknown(key, 'destructuring of the timing record not found', where=rd.where(tm[0]))
+        else:
+            names = [norm(e) for e in des[0].targets[0].elts]
+            # field i of the record is bound to names[i]; the dictionary must file it under spec[i]
+            bound = dict(zip(names, spec[:len(names)]))
+            wrong = [(k, v) for k, v in zip(keys, vals) if bound.get(v) != k]
+            if sorted(keys) == sorted(spec) and not wrong and len(names) == len(spec): run.ok(key, keys)
+            else: run.violated(key, 'spec names %s, record bound to %s, dictionary %s' % (spec, names, list(zip(keys, vals))), where=rd.where(tm[0]))
     else: run.unknown(key, 'timing dictionary not found', where=rd.where())
 
 
